@@ -28,6 +28,11 @@ def run(ctx):
         snapdir = R.scratch(ctx, "snaps")
         mutdir = R.scratch(ctx, "mut")
         bases = R.snapshots(ctx, snapdir, ctx.seed, 60 if quick else 300)
+        # foreign layouts as bases too: FAT not in sector 0, sector 0 inside a chain, permuted chains,
+        # red nodes — corruptions of those reach states no library-made file can be corrupted into
+        laydir = R.scratch(ctx, "lay")
+        C.harness(["layout", "--seed", ctx.seed + 31, "--count", 60 if quick else 600, "--outdir", laydir])
+        bases += sorted(os.path.join(laydir, f) for f in os.listdir(laydir) if f.endswith(".cfb") and "_after" not in f)
         fuzz = []
         for d in ("infinite_loops_fuzzed", "panics_fuzzed"):
             p = os.path.join(C.REPO, "tests", d)
@@ -38,6 +43,9 @@ def run(ctx):
         mlist = ctx.path("mut.list")
         rc, out = C.harness(["mutate", "--seed", ctx.seed, "--bases", blist, "--outdir", mutdir, "--count", 3000 if quick else 200000, "--list", mlist])
         _, mhist, _ = C.parse_stats(out)
+        if rc != 0 or not os.path.exists(mlist):
+            ctx.undischarged.append("harness mutate crashed: " + out[-300:])
+            return C.finish(ctx)
         files = fuzz + open(mlist).read().split()
         ops, imp, mod = R.run_raw(ctx, files, "malformed")
         classes = {}
@@ -60,7 +68,7 @@ def run(ctx):
         ctx.coverage.update({
             "evaluations": len(ops),
             "distinct_nontrivial": len(set(imp)) if imp else 0,
-            "rule": "byte strings = the repository's fuzz regression files + field-level corruptions (1-3 per image) of snapshots taken inside API histories: header fields, header DIFAT slots, FAT/MiniFAT cells (self loops, cycles, rho shapes, out of range, every special value), directory entry name length/units/type/colour/links/start sector/size/CLSID/times, truncation and extension around sector boundaries, random bytes; each opened in both modes by the real crate (worker thread, 10 s watchdog, panic capture) followed by walk + whole-stream read of every stream, and by the Lean Raw model; compared on accept/reject + error kind + full logical dump. distinct_nontrivial = distinct result lines of the implementation",
+            "rule": "byte strings = the repository's fuzz regression files + field-level corruptions (1-3 per image) of snapshots taken inside API histories and of synthesised foreign layouts (FAT not in sector 0, sector 0 inside chains, red nodes, gaps): header fields, header DIFAT slots, FAT/MiniFAT cells (self loops, cycles, rho shapes, out of range, every special value), directory entry name length/units/type/colour/links/start sector/size/CLSID/times, truncation and extension around sector boundaries, random bytes; each opened in both modes by the real crate (worker thread, 10 s watchdog, panic capture) followed by walk + whole-stream read of every stream, and by the Lean Raw model; compared on accept/reject + error kind + full logical dump. distinct_nontrivial = distinct result lines of the implementation",
             "samples": ops[:3] + [imp[0][:200]] if ops else [],
             "histogram": dict(classes, **mhist),
             "traces_validated_against_impl": len(ops),
